@@ -1,5 +1,6 @@
 import FsutilModel.Varint
 import FsutilModel.Model.Wire
+import FsutilModel.WirePacket
 /-! # C20 — Wire encoding and framing -/
 namespace Fsm.C20
 open W
@@ -47,5 +48,37 @@ theorem frames_roundtrip (msgs : List (List Nat)) (h : ∀ m ∈ msgs, m.length 
 
 /-- non-vacuity: two messages, one of them empty -/
 example : recvAll 5 (sendAll [[1, 2, 3], []]) = some [[1, 2, 3], []] := by decide
+
+/-- The transcribed varint reader (`readVar`: array-indexed, `(b & 0x7f) << shift` OR-ed into a 64-bit accumulator, overflow
+and end-of-input exits) reads back what the transcribed writer wrote, wherever it sits in a buffer. -/
+theorem readVar_roundtrip (d : Bytes) (l i n : Nat) (hn : n < two64) (hat : At d i (encVar n))
+    (hl : i + (encVar n).length ≤ l) : readVar d l i = .ok (n, i + (encVar n).length) :=
+  readVar_enc d l i n hn hat hl
+
+/-- **Stat round trip over the transcribed generated code**: for every well-formed value (uint32 / int64 field ranges,
+distinct xattr keys, no unknown fields; names and values are arbitrary byte strings, including non-UTF-8 and empty ones)
+`UnmarshalVT(MarshalVT(s)) = s`. -/
+theorem stat_roundtrip (s : PStat) (hwf : s.WF) (hlen : (marshalStat s).length < two63) :
+    unmarshalStat (marshalStat s) = .ok s :=
+  W.stat_roundtrip s hwf hlen
+
+/-- **Packet round trip** (type, nested optional Stat, id, data; `data = some []` is the one value the wire format cannot
+distinguish from `none`, as in protobuf). -/
+theorem packet_roundtrip (p : PPacket) (hwf : p.WF) (hlen : (marshalPacket p).length < two63) :
+    unmarshalPacket (marshalPacket p) = .ok p :=
+  W.packet_roundtrip p hwf hlen
+
+/-- non-vacuity: a value with a negative size, a maximal mode, an empty xattr value and a non-UTF-8 name … -/
+def exStat : PStat :=
+  { path := [255, 47, 0], mode := 4294967295, size := -1, mtime := 1700000000000000000,
+    xattrs := [([117], []), ([118], [0, 200])] }
+/-- … is well-formed … -/
+example : exStat.WF := ⟨by decide, by decide, by decide, by decide, by decide, by decide, by decide, by decide, rfl⟩
+/-- … and is decoded back (evaluated: a test of the statement's reading, not a proof of it) -/
+example : (match unmarshalStat (marshalStat exStat) with | .ok s => decide (s = exStat) | .error _ => false) = true := by decide
+example : (⟨2, some exStat, 7, some [1, 2, 3], []⟩ : PPacket).WF :=
+  ⟨by decide, fun st h => by
+    cases h; exact ⟨by decide, by decide, by decide, by decide, by decide, by decide, by decide, by decide, rfl⟩,
+   by decide, by decide, rfl⟩
 
 end Fsm.C20
